@@ -93,6 +93,16 @@ pub fn texts(deep: bool, mut f: impl FnMut(String, String)) {
                 let inner = build(ii, &|i| atom(i + 1));
                 let t = build(oi, &|i| if i == slot { inner.clone() } else { atom(i) });
                 f(format!("d2/{oname}.{slot}/{iname}"), wrap(&t));
+                // the inner term inside one, two and three pairs of parentheses (redundant
+                // parentheses around non-atomic terms in every operand position)
+                for depth in 1..=3usize {
+                    let mut w = inner.clone();
+                    for _ in 0..depth {
+                        w = T::Paren(b(w));
+                    }
+                    let t = build(oi, &|i| if i == slot { w.clone() } else { atom(i) });
+                    f(format!("d2p{depth}/{oname}.{slot}/{iname}"), wrap(&t));
+                }
                 if deep && *inn > 0 {
                     for slot2 in 0..*inn {
                         for (ji, (jname, _, _)) in fs.iter().enumerate() {
@@ -236,6 +246,9 @@ pub fn worker(ctx: &WorkerCtx) -> Report {
     let cfgs = configs(ctx.tier.thorough());
     // depth-3 texts (thorough only, ~400 k of them) are rendered under the quick configuration set
     let cfgs_deep = configs(false);
+    // the parenthesised variants of the depth-2 texts under a handful of configurations (redundant
+    // parentheses do not interact with the layout)
+    let cfgs_paren: Vec<PrintCfg> = [(1usize, 0isize), (20, 2), (80, 4), (200, 8)].iter().map(|(w, i)| PrintCfg { width: *w, allow_linebreaks: true, latex: false, omit_decl_sep: false, indent: *i }).collect();
     let mut idx = 0u64;
     let mut skipped_after_budget = 0u64;
     texts(ctx.tier.thorough(), |name, src| {
@@ -245,7 +258,7 @@ pub fn worker(ctx: &WorkerCtx) -> Report {
                 skipped_after_budget += 1;
                 return;
             }
-            check_text(&name, &src, if name.starts_with("d3/") { &cfgs_deep } else { &cfgs }, &mut rep);
+            check_text(&name, &src, if name.starts_with("d3/") { &cfgs_deep } else if name.starts_with("d2p") { &cfgs_paren } else { &cfgs }, &mut rep);
         }
     });
     if skipped_after_budget > 0 {
